@@ -205,8 +205,16 @@ func (s *SourceControl) runLaterIfActive(f func()) error {
 	if !s.isSourceActive {
 		return fmt.Errorf("no source is active")
 	}
-	s.queuedRequests <- f
-	return <-s.queuedResults
+	// The source can end on its own (error, timeout) at any moment, and isSourceActive is only
+	// brought up to date by handlePossibleStoppedSource. Nobody reads queuedRequests once the core
+	// loop has returned, so never wait for it alone.
+	select {
+	case s.queuedRequests <- f:
+		return <-s.queuedResults
+	case <-s.ActiveSource.RunDoneChan():
+		s.handlePossibleStoppedSource()
+		return fmt.Errorf("the source has stopped")
+	}
 }
 
 // MixFractionObject is the RPC-usable structure for ConfigureMixFraction
